@@ -1,0 +1,6 @@
+//go:build !verif
+
+package types
+
+// sealCheckEnabled reports whether verifyCascadingFields computes the ethash seal. Always true in normal builds.
+func sealCheckEnabled() bool { return true }
